@@ -214,8 +214,9 @@ func init() {
 				c05Fsize(c, idx-1, doc, k, filepath.Join(dir, "out.docx"))
 			}
 		}
-		// ---- part 2: target paths
-		for _, dn := range a.Docs {
+		// ---- part 2: target paths, for every document of the set in both tiers (an opened document serialises
+		// the same way twice, a new one usually does not: both matter for a target that holds an earlier save)
+		for dn := range c05Docs {
 			doc := c05Docs[dn]
 			for _, pk := range c05PathKinds {
 				my := c.Begin(idx, func() interface{} { return map[string]interface{}{"doc": doc.name, "path": pk} })
@@ -415,7 +416,7 @@ func c05AgreeCase(c *shard.Ctx, idx int64, desc map[string]interface{}, base c05
 	}
 }
 
-var c05PathKinds = []string{"plain", "save-before-any-tobytes", "nested-new-dirs", "existing-longer-file", "existing-shorter-file", "relative-bare-name", "dev-full", "is-a-directory", "below-a-regular-file", "missing-dir-under-file", "empty-name"}
+var c05PathKinds = []string{"plain", "save-before-any-tobytes", "nested-new-dirs", "existing-longer-file", "existing-shorter-file", "existing-own-previous-save", "existing-previous-save-data-damaged", "existing-previous-save-head-damaged", "existing-same-length-garbage", "relative-bare-name", "dev-full", "is-a-directory", "below-a-regular-file", "missing-dir-under-file", "empty-name"}
 
 func c05Fsize(c *shard.Ctx, idx int64, doc c05Doc, k int, path string) {
 	P := c.P
@@ -522,6 +523,35 @@ func c05Path(c *shard.Ctx, idx int64, doc c05Doc, kind, dir string) {
 	case "existing-shorter-file":
 		path = filepath.Join(sub, "a.docx")
 		os.WriteFile(path, []byte("PK\x03\x04junk"), 0o644)
+	case "existing-own-previous-save", "existing-previous-save-data-damaged", "existing-previous-save-head-damaged", "existing-same-length-garbage":
+		// the target already holds an earlier save of the very same document - intact, or damaged in a way a
+		// look at its size or at its central directory does not reveal (seed C05-d2)
+		path = filepath.Join(sub, "a.docx")
+		var e1 error
+		if p := guard(func() { e1 = d.Save(path) }); p != "" || e1 != nil {
+			P.Violate(rep.Violation{Sig: "error-on-writable-target|" + kind, Clause: "save-works", What: fmt.Sprintf("first Save(%s) failed without any fault: %s %v", doc.name, p, e1), Case: shardCase(c, "C05", idx, map[string]interface{}{"doc": doc.name, "path": kind})})
+			return
+		}
+		prev, _ := os.ReadFile(path)
+		switch kind {
+		case "existing-previous-save-data-damaged":
+			if zr, err := zip.NewReader(bytes.NewReader(prev), int64(len(prev))); err == nil {
+				for _, f := range zr.File {
+					if off, err := f.DataOffset(); err == nil && f.CompressedSize64 > 0 {
+						prev[off+int64(f.CompressedSize64/2)] ^= 0xFF
+					}
+				}
+			}
+		case "existing-previous-save-head-damaged":
+			for i := 0; i < 30 && i < len(prev); i++ {
+				prev[i] = 0
+			}
+		case "existing-same-length-garbage":
+			for i := range prev {
+				prev[i] = byte(i*7 + 3)
+			}
+		}
+		os.WriteFile(path, prev, 0o644)
 	case "relative-bare-name":
 		// a bare file name in the current directory (Dir(".") must not be a problem)
 		old, _ := os.Getwd()
@@ -661,7 +691,7 @@ func runC05(r *rep.Run) {
 		sizeInfo[c05Docs[dn].name] = max
 		total += max + 257
 	}
-	r.Rule = "for every document of the set and EVERY k in [0, size+256]: fresh document, ToBytes (reference), RLIMIT_FSIZE=k with SIGXFSZ ignored, real Document.Save to a real file, limit restored, file read back with the independent reader; verdict: err==nil => file is a readable ZIP whose part set equals ToBytes' and every part is byte-equal (XML parts: equal up to the order of id-keyed children and time stamps); plus target paths (plain, nested new directories, existing longer/shorter file, bare relative name: must succeed faithfully with no trailing bytes; /dev/full, a directory, below a regular file, empty name: must return an error); plus agreement histories without faults: 4 base documents (new; section settings first; opened own output; opened foreign package with an empty part, a 200 KiB part and stored entries) x first serialisation (none/ToBytes/Save) x every sequence of <= d mutations (styles added/removed, images, headers, footers, lists, notes, tables, page settings, properties, settings, removal) with a serialisation between mutations x both orders of the final ToBytes and Save: Save must return nil and the file must equal ToBytes; non-trivial = the fault actually struck (Save returned an error or the file is incomplete), a path case, or an agreement history whose document was serialised before it was changed; state = (document, k, outcome) / (history)"
+	r.Rule = "for every document of the set and EVERY k in [0, size+256]: fresh document, ToBytes (reference), RLIMIT_FSIZE=k with SIGXFSZ ignored, real Document.Save to a real file, limit restored, file read back with the independent reader; verdict: err==nil => file is a readable ZIP whose part set equals ToBytes' and every part is byte-equal (XML parts: equal up to the order of id-keyed children and time stamps); plus target paths for every document of the set (plain, nested new directories, existing longer/shorter file, a target that already holds an earlier save of the same document - intact, with one byte of every entry's data flipped, with its first 30 bytes zeroed, or overwritten with garbage of the same length -, bare relative name: must succeed faithfully with no trailing bytes; /dev/full, a directory, below a regular file, empty name: must return an error); plus agreement histories without faults: 4 base documents (new; section settings first; opened own output; opened foreign package with an empty part, a 200 KiB part and stored entries) x first serialisation (none/ToBytes/Save) x every sequence of <= d mutations (styles added/removed, images, headers, footers, lists, notes, tables, page settings, properties, settings, removal) with a serialisation between mutations x both orders of the final ToBytes and Save: Save must return nil and the file must equal ToBytes; non-trivial = the fault actually struck (Save returned an error or the file is incomplete), a path case, or an agreement history whose document was serialised before it was changed; state = (document, k, outcome) / (history)"
 	r.Bounds["documents"] = sizeInfo
 	r.Bounds["fault_offsets"] = total
 	r.Bounds["path_kinds"] = c05PathKinds
